@@ -3,7 +3,7 @@
 // them in child processes under recover, a watchdog and a memory guard, classifies the outcomes
 // and writes the case records the OCaml model driver compares with the Coq model.
 //
-//	c09 run    -seed N -tier quick|thorough -out DIR [-workers W] [-keep] [-noshrink]
+//	c09 run    -seed N -tier quick|thorough -out DIR [-workers W] [-keep] [-noshrink] [-shortlen BYTES]
 //	c09 child  -inputs FILE -from K -out FILE -log FILE [-timeout S] [-mem MiB]     (internal)
 //	c09 replay -input FILE [-hex]
 //
